@@ -55,6 +55,8 @@ def materialize(ex, st, obj, depth=0):
 
 def build_inputs(ex, st, fi, c, variant):
     params = [a.arg for a in fi.node.args.posonlyargs + fi.node.args.args + fi.node.args.kwonlyargs]
+    if fi.node.args.kwarg is not None and fi.node.args.kwarg.arg in variant:
+        params.append(fi.node.args.kwarg.arg)
     env = {}
     for p in params:
         ty = variant[p]
@@ -64,6 +66,8 @@ def build_inputs(ex, st, fi, c, variant):
 
 def param_types(fi, c):
     params = [a.arg for a in fi.node.args.posonlyargs + fi.node.args.args + fi.node.args.kwonlyargs]
+    if fi.node.args.kwarg is not None and fi.node.args.kwarg.arg in c.get('types', {}):
+        params.append(fi.node.args.kwarg.arg)       # **kw as one (typed, usually opaque) mapping
     types = dict(c.get('types', {}))
     if fi.cls is not None and params and params[0] == 'self' and 'self' not in types:
         types['self'] = 'obj:%s' % (c.get('self_class') or fi.cls.key)
